@@ -124,6 +124,11 @@ def flow() -> Route:
     return Route(nlri, AttributeCollection(), nexthop=IP.NoNextHop)
 
 
+def _check_flow_prefix(text: str, netmask: int, bits: int) -> None:
+    if netmask < 0 or netmask > bits:
+        raise ValueError(f"'{text}' is not a valid flow prefix\n  The prefix length must be 0 to {bits}")
+
+
 def source(tokeniser: 'Tokeniser') -> Generator[Flow4Source | Flow6Source, None, None]:
     """Update source to handle both IPv4 and IPv6 flows."""
     data: str = tokeniser()
@@ -133,15 +138,18 @@ def source(tokeniser: 'Tokeniser') -> Generator[Flow4Source | Flow6Source, None,
         netmask: str
         ip, netmask = data.split('/')
         raw: bytes = b''.join(bytes([int(_)]) for _ in ip.split('.'))
+        _check_flow_prefix(data, int(netmask), IPv4.BITS)
         yield Flow4Source.make_prefix4(raw, int(netmask))
     # Check if it's IPv6 without an offset
     elif data.count(':') >= IPv6.COLON_MIN and data.count('/') == SINGLE_SLASH:
         ip, netmask = data.split('/')
+        _check_flow_prefix(data, int(netmask), IPv6.BITS)
         yield Flow6Source.make_prefix6(IP.pton(ip), int(netmask), 0)
     # Check if it's IPv6 with an offset
     elif data.count(':') >= IPv6.COLON_MIN and data.count('/') == DOUBLE_SLASH:
         offset: str
         ip, netmask, offset = data.split('/')
+        _check_flow_prefix(data, int(netmask), IPv6.BITS)
         yield Flow6Source.make_prefix6(IP.pton(ip), int(netmask), int(offset))
 
 
@@ -154,15 +162,18 @@ def destination(tokeniser: 'Tokeniser') -> Generator[Flow4Destination | Flow6Des
         netmask: str
         ip, netmask = data.split('/')
         raw: bytes = b''.join(bytes([int(_)]) for _ in ip.split('.'))
+        _check_flow_prefix(data, int(netmask), IPv4.BITS)
         yield Flow4Destination.make_prefix4(raw, int(netmask))
     # Check if it's IPv6 without an offset
     elif data.count(':') >= IPv6.COLON_MIN and data.count('/') == SINGLE_SLASH:
         ip, netmask = data.split('/')
+        _check_flow_prefix(data, int(netmask), IPv6.BITS)
         yield Flow6Destination.make_prefix6(IP.pton(ip), int(netmask), 0)
     # Check if it's IPv6 with an offset
     elif data.count(':') >= IPv6.COLON_MIN and data.count('/') == DOUBLE_SLASH:
         offset: str
         ip, netmask, offset = data.split('/')
+        _check_flow_prefix(data, int(netmask), IPv6.BITS)
         yield Flow6Destination.make_prefix6(IP.pton(ip), int(netmask), int(offset))
 
 
